@@ -263,6 +263,12 @@ func sanitizeName(name string) string {
 	if len(result) == 0 {
 		return "unnamed"
 	}
+	// Identifiers beginning with "gl_" are reserved in GLSL. A base that starts with
+	// "gl_", or the base "gl" (whose uniquified forms are "gl_1", "gl_2", ...), is
+	// moved out of the reserved namespace.
+	if s := string(result); s == "gl" || strings.HasPrefix(s, "gl_") {
+		return "gen_" + s
+	}
 	return string(result)
 }
 
